@@ -116,6 +116,11 @@ func (t *WeightedMerkleTrie) markToCollect(node Node, key []byte, pos int) (Node
 
 	switch n := node.(type) {
 	case *routingNode:
+		if pos >= len(key) {
+			// a branch below the full key depth (only in a trie imported from a crafted export)
+			n.toCollect = true
+			return n, nil
+		}
 		child, err := t.markToCollect(n.Children[key[pos]], key, pos+1)
 		if err != nil {
 			return nil, err
